@@ -18,6 +18,7 @@ package types
 
 import (
 	"fmt"
+	"strconv"
 
 	"github.com/docker/go-units"
 )
@@ -42,7 +43,13 @@ func (u *UnitBytes) DecodeMapstructure(value interface{}) error {
 	case float64:
 		*u = UnitBytes(v)
 	case string:
-		b, err := units.RAMInBytes(fmt.Sprint(value))
+		// a plain number of bytes, as rendered by the marshallers (possibly negative: -1 stands for unlimited), or
+		// a size with a unit
+		if n, err := strconv.ParseInt(v, 10, 64); err == nil {
+			*u = UnitBytes(n)
+			return nil
+		}
+		b, err := units.RAMInBytes(v)
 		*u = UnitBytes(b)
 		return err
 	}
